@@ -333,6 +333,19 @@ class Analyzer:
             return (NEG if a[0] == NEG or b[1] == POS else _clamp(a[0] - b[1]), POS if a[1] == POS or b[0] == NEG else _clamp(a[1] - b[0]))
         if k == 'cond':
             return _join_iv(self.ieval(e['t'], st), self.ieval(e['e'], st))
+        if k == 'bin' and e['op'] == '&':
+            # x & m with a non-negative constant m lies in [0, m] whatever x is
+            for m_ in (const_val(e['l']), const_val(e['r'])):
+                if m_ is not None and m_ >= 0:
+                    return (0, m_)
+        if k == 'bin' and e['op'] == '%' and (const_val(e['r']) or 0) > 0:
+            a = self.ieval(e['l'], st)
+            if a[0] >= 0:
+                return (0, const_val(e['r']) - 1)
+        if k == 'bin' and e['op'] == '>>' and const_val(e['r']) is not None and 0 <= const_val(e['r']) < 63:
+            a = self.ieval(e['l'], st)
+            if a[0] >= 0:
+                return (a[0] >> const_val(e['r']), a[1] >> const_val(e['r']) if a[1] < POS else POS)
         b = self.buf_field(e, 'offset')
         if b and b in st.off:
             return st.off[b]
@@ -984,6 +997,22 @@ class Analyzer:
             return
         # depth counters etc.: nothing tracked
 
+    def _bounded_by_end_param(self, callee, i):
+        """does the callee compare its i-th parameter (a pointer into the input) with another pointer parameter (p < end,
+        end - p < n)?"""
+        if callee.body is None or i >= len(callee.params):
+            return False
+        pd = callee.params[i]['d']
+        others = {q['d'] for j, q in enumerate(callee.params) if j != i and self.u.ty(q['ty'])['c'] == 'ptr' and 'char' in self.u.ty(q['ty'])['s']}
+        if not others:
+            return False
+        for x in callee.nodes():
+            if x.get('k') == 'bin' and x.get('op') in CMP_OPS:
+                ds = {y.get('d') for y in walk(x) if y.get('k') == 'ref'}
+                if pd in ds and ds & others:
+                    return True
+        return False
+
     def do_call(self, call, st, record):
         cn = callee_name(call)
         args = call['args']
@@ -1007,6 +1036,13 @@ class Analyzer:
                     pn = self.ptr_norm(a)
                     av = self.avail_of(pn, st) if pn else None
                     ok = av is not None and av[0] >= need
+                    if not ok and self._bounded_by_end_param(callee, i):
+                        # the callee reads as far as an end pointer handed in allows (it compares the two): what it needs at the
+                        # cursor is a relation between two arguments, which requirements per parameter do not express
+                        self.__dict__.setdefault('unmodelled', []).append(
+                            '%s: %s reads at %s as far as the end pointer it is given allows; a bound handed in as a second pointer is '
+                            'not followed by this analysis' % (self.fn.where(call), cn, expr_str(strip_casts(a))[:30]))
+                        continue
                     self.site('BND2', call, 'call %s needs %d readable byte(s) at %s' % (cn, need, expr_str(strip_casts(a))[:40]), ok,
                               'proved avail >= %s' % (av[0] if av is not None and av[0] > NEG else 'nothing'),
                               'call:%s:%s' % (cn, expr_str(strip_casts(a))[:40]))
@@ -1044,6 +1080,17 @@ class Analyzer:
                         av = self.avail_of(pn, st)
                         ok = av is not None and av[0] >= const_val(args[2])
                         self.site('BND1', call, 'memcpy reads %d bytes of the input' % const_val(args[2]), ok, '', 'libc:memcpy')
+                    elif cn == 'memcpy' and j == 1:
+                        av = self.avail_of(pn, st)
+                        iv = self.ieval(args[2], st)
+                        if av is not None and iv[1] < POS and av[0] >= iv[1]:
+                            self.site('BND1', call, 'memcpy reads at most %d bytes of the input' % iv[1], True, '', 'libc:memcpy')
+                        else:
+                            self.__dict__.setdefault('unmodelled', []).append(
+                                '%s: memcpy reads %s bytes of the input, a number this analysis cannot relate to what is readable there'
+                                % (self.fn.where(call), expr_str(strip_casts(args[2]))[:30]))
+                    elif cn == 'memcpy':
+                        pass        # the destination
                     else:
                         self.site('BND1', call, '%s scans the length-delimited input for a terminator' % cn, False,
                                   'the input need not be zero-terminated', 'libc:%s' % cn)
@@ -1226,6 +1273,14 @@ class Analyzer:
                     qq = strip_casts(q)
                     if qq.get('k') == 'ref':
                         return ('off', b, None, qq)
+            # (p - B->content) + k: the index of the byte k behind p
+            for (p, q) in ((x['l'], x['r']), (x['r'], x['l'])):
+                c = const_val(q)
+                p0 = strip_casts(p)
+                if c is not None and p0.get('k') == 'bin' and p0['op'] == '-':
+                    sp = self.side(p0, st)
+                    if sp[0] == 'pdiff':
+                        return ('pdiff', (sp[1][0], sp[1][1], sp[1][2] + c), sp[2])
         if x.get('k') == 'bin' and x['op'] == '-':
             # pointer difference
             pr = self.ptr_norm(x['r'])
